@@ -338,10 +338,15 @@ private:
                                                    , blue
                                                    , sizeof(uint16_t) * num_colors );
 
-      for( typename rgb16_view_t::y_coord_t y = 0; y < dst_view.height(); ++y )
+      // the destination may be larger than the picture (check_image_size admits that): only the part
+      // that has indices is written
+      typename rgb16_view_t::y_coord_t const height = (std::min)( dst_view.height(), indices_view.height() );
+      typename rgb16_view_t::x_coord_t const width  = (std::min)( dst_view.width() , indices_view.width()  );
+
+      for( typename rgb16_view_t::y_coord_t y = 0; y < height; ++y )
       {
          typename rgb16_view_t::x_iterator it  = dst_view.row_begin( y );
-         typename rgb16_view_t::x_iterator end = dst_view.row_end( y );
+         typename rgb16_view_t::x_iterator end = it + width;
 
          typename Indices_View::x_iterator indices_it = indices_view.row_begin( y );
 
